@@ -80,8 +80,12 @@ def build():
                 && c.view@.exts == seq![ExtView::BasicConstraints, ExtView::San { dns: seq![domain@], ip: Seq::empty() }, ExtView::Custom { name: name, value: value }], //@C16.only_san_is_the_domain_and_acme_extension_is_name_value
 """, rewrites=[("T-STR", r"acme_ext\.is_empty\(\)", "crate::vmap::str_is_empty(acme_ext)"),
                ("T-ITER", r"acme_ext\.split\('='\)\.collect\(\)", "crate::vmap::split_char(acme_ext, '=')"),
-               ("T-FMT", r"format!\(\"\{\} TLS-ALPN-01 Authority\", super::APP_NAME\)", 'crate::opaque_string()')],
-        at=[("before_stmt", "X509Extension::new(", 1, """
+               ("T-FMT", r"format!\(\"\{\}(?P<t>[^\"]*)\", super::APP_NAME\)", lambda m: f'crate::vstr::cat2(super::APP_NAME, "{m.group("t")}")')],
+        at=[("before_stmt_re", r"x509_name\.append_entry_by_text\(\"O\"", 1, """
+    proof { reveal_strlit("ACMEd"); }"""),
+            ("after_stmt", "let ca_name = ", 1, """
+    proof { reveal_strlit("ACMEd"); reveal_strlit(" TLS-ALPN-01 Authority"); }"""),
+            ("before_stmt", "X509Extension::new(", 1, """
         proof {
             // exactly two parts: name and value
             if v@.len() == 0 {
